@@ -279,7 +279,7 @@ func TestVerifC04(t *testing.T) {
 	})
 	// whoever dials the default https port although the address named another one lands here
 	var on443 atomic.Int64
-	trapIP = fmt.Sprintf("127.77.%d.1", c.R.Shard+1)
+	trapIP = fmt.Sprintf("127.%d.%d.%d", 70+os.Getpid()%50, os.Getpid()/50%250+1, c.R.Shard+1) // of this process alone, also when several runs of the check overlap
 	if ln, err := net.Listen("tcp", trapIP+":443"); err == nil {
 		defer ln.Close()
 		c.Count("port443_listener", 1)
